@@ -10,6 +10,7 @@ open IrVerif.Sort
 #print axioms C12_perm
 #print axioms C12_respects
 #print axioms C12_cycle_iff
+#print axioms C12_cycle_lifted
 #print axioms C12_cycle_no_change
 #print axioms C12_fixpoint_graph
 #print axioms C12_fixpoint
